@@ -389,3 +389,269 @@ def rule_SPLIT(FA):
         if k not in seen_fns:
             out.append(Inst('R-SPLIT', 'R-SPLIT|%s|anchor' % k, 'note', '', 'confirmed index-split site no longer found (function renamed or its position arithmetic restructured)', props, nontrivial=False))
     return out
+
+
+# ---------------------------------------------------------------- R-SMP
+
+def _affine(t):
+    """t == base + c  ->  (base, c)"""
+    if isinstance(t, tuple) and t and t[0] == 'bin' and t[1] in ('Add', 'Sub'):
+        a, b = t[2], t[3]
+        if b[0] == 'const':
+            return a, (b[1] if t[1] == 'Add' else -b[1])
+        if a[0] == 'const' and t[1] == 'Add':
+            return b, a[1]
+    return t, 0
+
+
+def rule_SMP(FA):
+    """Select samples of RSSupportPlain: the writer stores the superblock of every N-th occurrence counting from 0
+    (test `occs % N == 0` before the counter is incremented); the reader must look up slot floor(k / N) for the 0-based
+    occurrence k it is asked for.  The rule composes the caller's argument (k + 1) with the reader's index
+    ((i - 1) / N) and requires offset 0 and the same N on both sides."""
+    props = ['C05', 'C01', 'C02', 'C04']
+    out = []
+    base = 'qvector::rs_qvector::rs_support_plain::RSSupportPlain'
+    rd = _fn(FA, base, 'select_block')
+    wr = _fn(FA, base, 'new')
+    if rd is None or wr is None:
+        return [Inst('R-SMP', 'R-SMP|RSSupportPlain select samples', 'violation', '', 'select_block / new not found (anchor lost)', props)]
+    R = FA.fn(rd)
+    P = ('param', rd['names'].get('3', '_3'))
+    slots = []
+    for b in R.blocks:
+        for s in b['s']:
+            rv = s.get('rv')
+            if not rv:
+                continue
+            for o in [rv.get('a'), rv.get('b')] + list(rv.get('ops', [])) + ([{'p': rv['p']}] if 'p' in rv else []):
+                if o and 'p' in o:
+                    t = _resolve_consts_l(FA, norm(R.operand_term(o)))
+                    for st in subterms(t):
+                        if isinstance(st, tuple) and st and st[0] == 'index' and any(isinstance(x, tuple) and x and x[0] == 'field' and x[2] == 'select_samples' for x in subterms(st[1])):
+                            idx = norm(st[2])
+                            if contains(idx, P):
+                                slots.append(idx)
+    cand = []
+    for idx in slots:
+        core, plus = _affine(idx)
+        if core[0] == 'bin' and core[1] in ('Shr', 'Div') and core[3][0] == 'const':
+            N = (1 << core[3][1]) if core[1] == 'Shr' else core[3][1]
+            b0, c = _affine(core[2])
+            if b0 == P:
+                cand.append((plus, N, c))
+    if not cand:
+        return [Inst('R-SMP', 'R-SMP|RSSupportPlain select samples', 'violation', rd['span'], 'cannot find the sample slot index `(i + c) / N` in select_block (anchor lost)', props)]
+    cand.sort()
+    _, N_r, c_r = cand[0]
+    # callers
+    c_calls = []
+    for f in FA.lib_fns(include_closures=False):
+        for spec in FA.specs(f):
+            F = FA.fn(f, spec)
+            for bi, t in F.calls():
+                if t['f']['fn']['name'] == 'select_block' and len(t['args']) == 3:
+                    a = norm(F.operand_term(t['args'][2]))
+                    b0, c = _affine(a)
+                    c_calls.append((fn_key(f), c, show(a), t['line'], b0[0] == 'param'))
+    # writer: `if occs[symbol] % N == 0 { samples.push(..) } ... occs[symbol] += 1`
+    W = FA.fn(wr)
+    dom = W.dom()
+    N_w = None
+    order_ok = None
+    for bi, b in enumerate(W.blocks):
+        if bi not in W.reach:
+            continue
+        for s in b['s']:
+            rv = s.get('rv')
+            if not rv or rv['k'] != 'bin' or rv['op'] != 'Rem':
+                continue
+            c = _resolve_consts_l(FA, norm(W.operand_term(rv['b'])))
+            if c[0] != 'const' or c[1] < 64:
+                continue
+            src = rv['a']
+            L = None
+            if 'p' in src:
+                pl = src['p']
+                if not pl['proj']:
+                    ds = [d for d in W.defs.get(pl['l'], []) if d[0] in W.reach]
+                    if len(ds) == 1 and ds[0][1] == 'assign' and ds[0][2]['k'] == 'use' and 'p' in ds[0][2]['a']:
+                        pl = ds[0][2]['a']['p']
+                if any(isinstance(e, dict) and 'idx' in e for e in pl['proj']):
+                    L = pl['l']
+            if L is None:
+                continue
+            # a push must be control-dependent on this test
+            guarded_push = False
+            for bj, t in W.calls():
+                if t['f']['fn']['name'] == 'push' and bi in dom[bj] and bj != bi:
+                    for a in path_atoms(W, bj):
+                        if a[0] == '==' and (a[1] == ('const', 0) or a[2] == ('const', 0)):
+                            other = a[2] if a[1] == ('const', 0) else a[1]
+                            o2 = _resolve_consts_l(FA, other)
+                            if o2[0] == 'bin' and o2[1] == 'Rem' and o2[3] == c:
+                                guarded_push = True
+            if not guarded_push:
+                continue
+            N_w = c[1]
+            inc_blocks = []
+            for bj, b2 in enumerate(W.blocks):
+                for s2 in b2['s']:
+                    if 'lhs' in s2 and s2['lhs']['l'] == L and any(isinstance(e, dict) and 'idx' in e for e in s2['lhs']['proj']):
+                        rvt = norm(W.rvalue_term(s2['rv']))
+                        if rvt[0] == 'bin' and rvt[1] == 'Add' and ('const', 1) in (rvt[2], rvt[3]):
+                            inc_blocks.append(bj)
+            order_ok = bool(inc_blocks) and all(bj not in dom[bi] for bj in inc_blocks)
+    key = 'R-SMP|RSSupportPlain select samples'
+    problems = []
+    if N_w is None:
+        problems.append('writer: no push under `counter % N == 0` found')
+    elif N_w != N_r:
+        problems.append('writer samples every %d occurrences, reader divides by %d' % (N_w, N_r))
+    if order_ok is False:
+        problems.append('writer tests the occurrence counter after incrementing it (1-based) or the increment was not found')
+    if not c_calls:
+        problems.append('no caller of select_block found')
+    for fk, c, shown, line, isparam in c_calls:
+        if c + c_r != 0:
+            problems.append('%s asks select_block for `%s` and select_block reads slot `(i %+d) / %d`: the slot of the 0-based occurrence k is (k %+d) / %d, not k / %d' % (
+                fk.split('::')[-1], shown, c_r, N_r, c + c_r, N_r, N_r))
+    sample = {'reader_divisor': N_r, 'reader_offset': c_r, 'writer_period': N_w, 'callers': [(x[0], x[1]) for x in c_calls], 'writer_counts_from_zero': order_ok}
+    if problems:
+        out.append(Inst('R-SMP', key, 'violation', rd['span'], '; '.join(problems), props, sample=sample))
+    else:
+        out.append(Inst('R-SMP', key, 'ok', rd['span'], 'writer samples occurrence 0, %d, 2*%d, ... (0-based); reader slot = ((k+1) - 1) / %d' % (N_w, N_w, N_r), props, sample=sample))
+    return out
+
+
+def _resolve_consts_l(FA, t):
+    from .r_misc import _resolve_consts
+    return norm(_resolve_consts(FA, t))
+
+
+# ---------------------------------------------------------------- R-HINT
+
+POPCALLS = ('count_ones', 'n_ones', 'n_zeros', 'count_zeros')
+
+
+def _roots(F, operand, depth=0, seen=None):
+    """Named (source-level) locals an operand is computed from, through copies, casts and arithmetic."""
+    seen = seen if seen is not None else set()
+    out = set()
+    if not operand or 'p' not in operand:
+        return out
+    l = operand['p']['l']
+    if l in seen or depth > 10:
+        return out
+    seen.add(l)
+    if l in F.names:
+        out.add(l)
+        return out
+    for d in F.defs.get(l, []):
+        if d[1] == 'assign':
+            rv = d[2]
+            for k in ('a', 'b'):
+                if k in rv and isinstance(rv[k], dict):
+                    out |= _roots(F, rv[k], depth + 1, seen)
+            if 'p' in rv and rv['k'] in ('ref', 'use'):
+                out |= _roots(F, {'p': rv['p']}, depth + 1, seen)
+        else:
+            out.add(('call', d[2]['f'].get('fn', {}).get('name', '?'), l))
+    return out
+
+
+def _derives_from_popcall(F, operand, depth=0, seen=None):
+    seen = seen if seen is not None else set()
+    if not operand or 'p' not in operand:
+        return False
+    l = operand['p']['l']
+    if l in seen or depth > 10:
+        return False
+    seen.add(l)
+    for d in F.defs.get(l, []):
+        if d[1] == 'call':
+            if d[2]['f'].get('fn', {}).get('name') in POPCALLS:
+                return True
+        else:
+            rv = d[2]
+            for k in ('a', 'b'):
+                if k in rv and isinstance(rv[k], dict) and _derives_from_popcall(F, rv[k], depth + 1, seen):
+                    return True
+    return False
+
+
+def rule_HINT(FA):
+    """Select hints of RSNarrow / RSWide: the counter tested against the hint period (`count / PER_HINT > cur_hint`)
+    must already include the population of the line being scanned: one of the variables it is computed from is
+    updated from a popcount of the current item in a block that dominates the test.  Testing a stale total records a
+    crossing of the period only at the next refresh, so the hint table misses it (select reads past the table)."""
+    out = []
+    props = ['C06', 'C03']
+    for base in ('bitvector::rs_narrow::RSNarrow', 'bitvector::rs_wide::RSWide'):
+        f = _fn(FA, base, 'new')
+        if f is None:
+            out.append(Inst('R-HINT', 'R-HINT|%s::new' % base, 'violation', '', 'constructor not found (anchor lost)', props))
+            continue
+        F = FA.fn(f)
+        dom = F.dom()
+        n = 0
+        for bi, b in enumerate(F.blocks):
+            if bi not in F.reach:
+                continue
+            t = b['t']
+            if t['k'] != 'switch' or 'p' not in t['d']:
+                continue
+            # discriminant = Gt/Lt(quotient, cur_hint) with quotient = x / PER_HINT
+            dl = t['d']['p']['l']
+            ds = F.defs.get(dl, [])
+            if len(ds) != 1 or ds[0][1] != 'assign' or ds[0][2]['k'] != 'bin' or ds[0][2]['op'] not in ('Gt', 'Lt', 'Ge', 'Le'):
+                continue
+            cmp_rv = ds[0][2]
+            quot = None
+            for side in ('a', 'b'):
+                o = cmp_rv[side]
+                if 'p' in o and not o['p']['proj']:
+                    d2 = F.defs.get(o['p']['l'], [])
+                    if len(d2) == 1 and d2[0][1] == 'assign' and d2[0][2]['k'] == 'bin' and d2[0][2]['op'] in ('Div', 'Shr'):
+                        den = norm(F.operand_term(d2[0][2]['b']))
+                        den = strip_casts(den)
+                        if den[0] == 'const' and den[1] >= 256:
+                            quot = d2[0][2]['a']
+            if quot is None:
+                continue
+            # is a push into the sample table control-dependent on this test?
+            pushes = [bj for bj, tt in F.calls() if tt['f']['fn']['name'] == 'push' and bi in dom[bj] and bj != bi
+                      and any(isinstance(x, tuple) and x and x[0] in ('index', 'call') for x in subterms(norm(F.operand_term(tt['args'][0]))))]
+            if not pushes:
+                continue
+            n += 1
+            roots = {r for r in _roots(F, quot) if isinstance(r, int)}
+            fresh = []
+            for r in roots:
+                for d in F.defs.get(r, []):
+                    if d[1] != 'assign':
+                        continue
+                    rv = d[2]
+                    # look through `x = move (tmp.0)` of checked arithmetic
+                    for _ in range(3):
+                        if rv['k'] == 'use' and 'p' in rv['a']:
+                            d3 = F.defs.get(rv['a']['p']['l'], [])
+                            if len(d3) == 1 and d3[0][1] == 'assign':
+                                rv = d3[0][2]
+                                continue
+                        break
+                    if rv['k'] == 'bin' and rv['op'].startswith('Add'):
+                        if any(_derives_from_popcall(F, rv[k]) for k in ('a', 'b')) and d[0] in dom[bi]:
+                            fresh.append(F.names.get(r))
+            key = 'R-HINT|%s::new|%s' % (base, '+'.join(sorted(F.names.get(r, '?') for r in roots)))
+            if fresh:
+                out.append(Inst('R-HINT', key, 'ok', t.get('line', ''), 'hint test reads `%s`, updated from the current line\'s popcount before the test' % ', '.join(sorted(set(fresh))), props,
+                                sample={'numerator_variables': sorted(F.names.get(r, '?') for r in roots), 'fresh': sorted(set(fresh))}))
+            else:
+                out.append(Inst('R-HINT', key, 'violation', t.get('line', ''),
+                                'hint test reads only `%s`, none of which is updated from the current line\'s popcount on every path to the test: a crossing of the hint period inside the line/superblock is recorded late or never' % (
+                                    ', '.join(sorted(F.names.get(r, '?') for r in roots))), props,
+                                sample={'numerator_variables': sorted(F.names.get(r, '?') for r in roots)}))
+        if n < 2:
+            out.append(Inst('R-HINT', 'R-HINT|%s::new|tests' % base, 'violation', f['span'], 'expected two hint tests (ones, zeros), found %d (anchor lost)' % n, props))
+    return out
